@@ -95,11 +95,26 @@ def quiet_logger():
     return _quiet
 
 
+_debug = None
+
+
+def debug_logger():
+    """A user-supplied logger with DEBUG enabled (records go nowhere)."""
+    global _debug
+    if _debug is None:
+        _debug = logging.getLogger('verif.debug')
+        _debug.setLevel(logging.DEBUG)
+        _debug.propagate = False
+        _debug.addHandler(logging.NullHandler())
+    return _debug
+
+
 def make_model(rng, core, cls=None, p=0.3, **kw):
-    """A model, sometimes constructed with a user-supplied (quiet) logger instead of the default one."""
+    """A model, sometimes constructed with a user-supplied logger (a quiet one, or one with DEBUG enabled) instead of the default."""
     cls = cls or core.Model
-    if rng.random() < p:
-        kw['logger'] = quiet_logger()
+    x = rng.random()
+    if x < p:
+        kw['logger'] = quiet_logger() if x < p * 0.6 else debug_logger()
     return cls(**kw)
 
 
